@@ -40,6 +40,63 @@ type c04Rule struct {
 	docOnly   string // a document-only exception modifier ("" or e.g. "elemhide")
 }
 
+// sruleToC04 reads the modifiers of a structurally given alphabet rule (the
+// small option syntax the alphabets of the other checks use) into the
+// structure the reference matcher works on.  Modifiers that do not take part in
+// matching (important, badfilter, dnsrewrite, popup, stealth, ...) are skipped.
+// ok is false if a modifier is outside what the reference models.
+func sruleToC04(s srule) (r c04Rule, ok bool) {
+	r.exc, r.pattern = s.exc, s.pattern
+	split := func(v string) (out []nv) {
+		for _, x := range strings.Split(v, "|") {
+			if strings.HasPrefix(x, "~") {
+				out = append(out, nv{x[1:], true})
+			} else {
+				out = append(out, nv{x, false})
+			}
+		}
+		return out
+	}
+	for _, o := range s.opts {
+		name, val, _ := strings.Cut(o, "=")
+		switch name {
+		case "important", "badfilter", "dnsrewrite", "stealth":
+		case "third-party":
+			r.party = 1
+		case "~third-party":
+			r.party = 2
+		case "first-party":
+			r.party = 3
+		case "~first-party":
+			r.party = 4
+		case "match-case":
+			r.matchCase = true
+		case "domain":
+			r.domains = split(val)
+		case "denyallow":
+			r.denyallow = strings.Split(val, "|")
+		case "dnstype":
+			r.dnstypes = split(val)
+		case "ctag":
+			r.ctags = split(val)
+		case "client":
+			if strings.ContainsAny(val, `'"\\`) {
+				return r, false
+			}
+			r.clients = split(val)
+		case "document", "elemhide", "generichide", "genericblock", "jsinject", "urlblock", "content", "extension", "popup":
+			r.docOnly = name // these apply to documents only
+		default:
+			neg := strings.HasPrefix(name, "~")
+			if _, isType := c04TypeBits[strings.TrimPrefix(name, "~")]; !isType || val != "" || name == "document" {
+				return r, false
+			}
+			r.types = append(r.types, nv{strings.TrimPrefix(name, "~"), neg})
+		}
+	}
+	return r, true
+}
+
 func encClient(v string) string {
 	if _, err := netip.ParseAddr(v); err == nil {
 		return v
